@@ -750,26 +750,6 @@ func (x *Exec) typeAssert(fr *frame, st *State, t *ssa.TypeAssert) Value {
 
 // ---- maps (abstracted: membership and contents are unconstrained) -----------------
 
-func (x *Exec) mapInit(st *State, T types.Type, ref Term) {}
-
-func (x *Exec) mapLookup(fr *frame, st *State, t *ssa.Lookup, m Value) Value {
-	c := x.c
-	c.Assume["maps abstracted: lookups return unconstrained values"] = true
-	mt := m.T.Underlying().(*types.Map)
-	v := c.FreshValue("mapval", mt.Elem(), st.pc)
-	if t.CommaOk {
-		ok := c.Fresh("mapok", SBool)
-		c.AddFact(st.pc, implies(eq(x.asRef(m), intLit(0)), not(ok)), "nil map has no entries")
-		return Value{T: t.Type(), Tup: []Value{v, c.Scalar(types.Typ[types.Bool], ok)}}
-	}
-	return v
-}
-
-func (x *Exec) mapUpdate(fr *frame, st *State, t *ssa.MapUpdate) {
-	m := x.val(fr, t.Map)
-	x.safety(fr, st, "nilmap", t.Pos(), not(eq(x.asRef(m), intLit(0))))
-}
-
 func (x *Exec) next(fr *frame, st *State, t *ssa.Next) Value {
 	c := x.c
 	it := x.val(fr, t.Iter)
@@ -789,6 +769,19 @@ func (x *Exec) next(fr *frame, st *State, t *ssa.Next) Value {
 			continue
 		}
 		vals = append(vals, c.FreshValue("rangeval", tt.At(i).Type(), st.pc))
+	}
+	// a map range yields entries of the map as it is now
+	if len(it.Tup) == 1 && len(vals) >= 2 && len(vals[1].L) == 1 {
+		if _, isMap := it.Tup[0].T.Underlying().(*types.Map); isMap {
+			if pres, mv, okm := x.mapGet(st, it.Tup[0], vals[1].L[0]); okm {
+				c.AddFact(st.pc, implies(ok, pres), "ranged key is present")
+				if len(vals) >= 3 && len(vals[2].L) == len(mv.L) {
+					for i := range mv.L {
+						c.AddFact(st.pc, implies(ok, eq(vals[2].L[i], mv.L[i])), "ranged value is the stored one")
+					}
+				}
+			}
+		}
 	}
 	return Value{T: tt, Tup: vals}
 }
